@@ -172,9 +172,17 @@ func (n *Node) Start() error {
 	// health tracker ticker goroutines it registered (they only read
 	// atomics, and would keep the bubble alive forever).
 	n.sim.Quiesce()
-	deregisterHealth()
+	if !keepHealth {
+		deregisterHealth()
+	}
 	return nil
 }
+
+// keepHealth leaves the health tracker goroutines of the newest incarnation
+// running during a run (they only read atomics and never park); used by the
+// race-build profiles so that the trackers take part in the race check. They
+// are removed when the fleet is closed.
+var keepHealth = os.Getenv("LSSIM_KEEP_HEALTH") != ""
 
 func deregisterHealth() {
 	for _, k := range []string{"store", "list", "load"} {
